@@ -51,6 +51,9 @@ long	vf_nviol (void);
 /* per-worker "what am I executing right now" slot, used to attribute crashes.
  * The harness writes a replayable case string into it before each risky execution. */
 char	*vf_slot (void);			/* VF_SLOT_LEN bytes, this worker's; each call counts as a heartbeat */
+void	vf_lib_enter (void);			/* bracket library calls: a stall outside them is a slow oracle (reported as MACHINERY, */
+void	vf_lib_leave (void);			/* never as a hang of the library); harnesses that never call these keep the old rule */
+#define VF_LIB(x)	({ vf_lib_enter (); __typeof__ (x) vf_r_ = (x); vf_lib_leave (); vf_r_; })
 void	vf_heartbeat (void);			/* long loops without slot updates call this so they are not taken for a hang */
 void	vf_slot_set_prop (const char *prop);	/* property a crash in this worker is attributed to */
 
